@@ -335,6 +335,12 @@ public:
 	*/
 	void copy(const T* p, int n)
 	{
+		if (p >= _a && p < _a + length()) // p points into this array, which resize() would destroy or move: copy a duplicate
+		{
+			Array<T> b(p, n);
+			copy(b._a, n);
+			return;
+		}
 		resize(n);
 		for (int i = 0; i < n; i++)
 			_a[i] = p[i];
@@ -461,7 +467,10 @@ public:
 	Array& append(const T* p, int n)
 	{
 		int m=length();
+		int j = (p >= _a && p < _a + m) ? int(p - _a) : -1; // p may point into this array, which resize() can move
 		resize(m + n);
+		if (j >= 0)
+			p = _a + j;
 		for (int i=0; i<n; i++)
 			_a[m+i] = p[i];
 		return *this;
